@@ -1,6 +1,8 @@
 import TensoraVerif.Model.Sexp
 import TensoraVerif.Model.Storage
 import TensoraVerif.Model.IRWire
+import TensoraVerif.Model.AlgebraWire
+import TensoraVerif.Lemmas.PeepholeExact
 open TV
 
 namespace Drv
@@ -165,6 +167,25 @@ def handle (cmd : String) (args : List Sexp) : Sexp :=
   | "ECHOM", [m] =>
     match IR.Wire.moduleOf m with
     | some m => IR.Wire.moduleToSexp m
+    | none => Sexp.mk "bad-request" [.str "unknown-constructor"]
+  | "DESUGAR", [a] =>
+    match Alg.Wire.assignOf a with
+    | some a =>
+      let d := Alg.desugar a
+      Sexp.mk "ok" [Alg.Wire.dexprToSexp d.rhs, Sexp.ofBool (Alg.productHoistUnsafe a.tidx a.rhs)]
+    | none => Sexp.mk "bad-request" [.str "unknown-constructor"]
+  | "DENOTE", [a, inputs, sizes] =>
+    -- values of the specification and of the desugared tree at every target coordinate
+    match Alg.Wire.assignOf a, Alg.Wire.inputsOf inputs, Alg.Wire.sizesOf sizes with
+    | some a, some inp, some sz =>
+      let d := Alg.desugar a
+      Sexp.mk "ok" [.list ((Alg.Wire.box (a.tidx.map sz)).map fun c =>
+        .list [Sexp.ofNats c, Alg.Wire.ratToSexp (Alg.denote a inp sz c), Alg.Wire.ratToSexp (Alg.denoteDA d inp sz c)])]
+    | _, _, _ => Sexp.mk "bad-request" [.str "denote-args"]
+  | "CERT", [.atom "nofloatid", m] =>
+    -- per function of a module: the decidable side condition of `peephole_stmt_sound_stable`
+    match IR.Wire.moduleOf m with
+    | some m => .list (m.defs.map fun f => Sexp.ofBool (IR.NoFloatIdentityS f.body))
     | none => Sexp.mk "bad-request" [.str "unknown-constructor"]
   | "EQUIV", [fuel, a, b, .list envs] =>
     match fuel.toNat?, IR.Wire.stmtOf a, IR.Wire.stmtOf b, envs.mapM envOf with
